@@ -939,7 +939,7 @@ def transfer_mirror(rtext, mirror, log, where, variant="main", is_fn=True):
                 raise Lost("%s: for-loop with `continue` needs a named iterator (`for x in it: E`) for R10" % where)
             pat = rtext[R[L["kw"] + 1].start:R[in_idx - 1].end]
             auto_inv = "%s.obeys_prophetic_iter_laws(), 0 <= %s_k <= %s_all.len(), %s.remaining() == %s_all.skip(%s_k)," % (nm, nm, nm, nm, nm, nm)
-            auto_dec = "decreases %s_all.len() - %s_k" % (nm, nm)
+            # (no automatic `decreases`: %s_all is prophetic and Verus refuses prophetic values there)
             # header annotation = block annotation anchored at the body's `{`
             hdr_pos = inv_ab.get(L["body_open"])
             found = False
